@@ -6,3 +6,10 @@ extern const volatile void *H_rely_ptr;
 extern unsigned long long H_rely_minw;
 #define __VERIF_RELY(p, v) ((const volatile void *)(p) != H_rely_ptr || \
 		((((unsigned long long)(v)) >> 41) & 0x1fff) >= H_rely_minw)
+/* second rely: a pointer-valued location (e.g. an MPSC tail) holds NULL or one given valid node */
+extern const volatile void *H_relyp_ptr;
+extern unsigned long long H_relyp_val;
+#undef __VERIF_RELY
+#define __VERIF_RELY(p, v) (((const volatile void *)(p) != H_rely_ptr || \
+		((((unsigned long long)(v)) >> 41) & 0x1fff) >= H_rely_minw) && \
+		((const volatile void *)(p) != H_relyp_ptr || (unsigned long long)(v) == 0 || (unsigned long long)(v) == H_relyp_val))
